@@ -49,7 +49,17 @@ RULE = ('schedules = lists of thread ids consumed at every traced source line of
         '(get_chunk with truncated responses -> read retries with back-off, lost chunks, empty and missing buckets), v4_props '
         '(sensor-backed properties of a v4 data set); model-only cases: random template DAGs x wants x schedules x '
         'locked/unlocked (wire_205), property-map histories and schedules (206), server states x buckets x schedules (207), '
-        'interleavings of request programs and arbitrary event lists (208/209)')
+        'interleavings of request programs and arbitrary event lists (208/209).  Strengthening: sites applycal_vis / applycal_mixed '
+        '(three dask workers computing different blocks of the calibrated vis / weights / flags of a v4 data set opened with '
+        'applycal=K,B whose solutions change during the observation: the block functions over the one CorrectionParams object of '
+        'the graph, line by line) and s3b (three threads, requests with per-request retry budgets: truncated body -> used-up budget '
+        'stored for the second attempt, hung-up connection -> urllib3 retries with the budget the adapter holds, a retries=0 '
+        'override; data path get_chunk_or_default), each compared with what ONE thread gets; pre-emption windows: before / after '
+        'every dynamic occurrence of a write to state that outlives the call (aliases of shared objects included) and of a read of '
+        'what such a write writes, windows at write sites no model covers first and exhaustively, the rest spread evenly over the '
+        'source lines; two-level pre-emptions (three requests in flight) for s3b in the thorough tier or when the translated facts '
+        'about the pooled sessions differ from the model; model-only: block machines with / without memo / locked memo (wire_213), '
+        'retry-budget machine on interleaved request programs, event soups and a shared-adapter topology (211/212)')
 ASSUMPTIONS = ['CPython switches threads only between source lines of the traced files (line-level atomicity); '
                'C-level races inside numpy/dask/requests are not explored',
                'instrumented lock objects replace the threading.Lock/RLock attributes of the objects under test (a '
@@ -61,7 +71,11 @@ ASSUMPTIONS = ['CPython switches threads only between source lines of the traced
                'creating functions are pure functions of the values they fetch (observed on the real functions, not proved)',
                'verified-bucket theorem: the answer of the server about a bucket does not change during the run',
                'a stalled run of a site that talks to the loopback HTTP endpoint is repeated once under the same schedule '
-               'before it is reported']
+               'before it is reported',
+               'per-call-state theorem: the classification of the statements of the block functions (reads shared state / call-local '
+               '/ modelled write / returns fresh or argument) and the freshness analysis behind the write-site inventory are the '
+               "translator's (flow-insensitive ast analysis, fixtures/sharedwrites.py); numba kernels are one line each",
+               'retry budget: urllib3 reads adapter.max_retries once per attempt (HTTPAdapter.send); Retry objects are immutable']
 
 LOCKED_SAFE = 42
 
@@ -327,90 +341,58 @@ def run_one(ctx, site, make, files, schedule, replaying=False):
     return s.hung
 
 
-MUTATORS = ('append', 'pop', 'insert', 'extend', 'remove', 'clear', 'update', 'setdefault', 'add', 'discard', 'popitem')
 _wl = {}
 _adj = {}
-
-
-def _root(t):
-    import ast
-    while isinstance(t, (ast.Attribute, ast.Subscript, ast.Starred)):
-        t = t.value
-    return t.id if isinstance(t, ast.Name) else None
-
-
-def _locals_of(fn):
-    """names bound inside the function other than its parameters (objects the function made itself: not shared)"""
-    import ast
-    params = {a.arg for a in fn.args.args + fn.args.kwonlyargs + fn.args.posonlyargs}
-    if fn.args.vararg:
-        params.add(fn.args.vararg.arg)
-    if fn.args.kwarg:
-        params.add(fn.args.kwarg.arg)
-    bound = set()
-    for n in ast.walk(fn):
-        if isinstance(n, ast.Name) and isinstance(n.ctx, ast.Store):
-            bound.add(n.id)
-    return bound - params
-
-
-def _is_write_stmt(n, local):
-    """does the statement write through an attribute / subscript of, or call a mutating method on, an object that the
-    function did not create itself (self, cls, a parameter, a global)?"""
-    import ast
-    targets = []
-    if isinstance(n, ast.Assign):
-        targets = n.targets
-    elif isinstance(n, (ast.AugAssign, ast.AnnAssign)):
-        targets = [n.target]
-    elif isinstance(n, ast.Delete):
-        targets = n.targets
-    elif isinstance(n, (ast.Expr, ast.Return)) and isinstance(n.value, ast.Call) and isinstance(n.value.func, ast.Attribute):
-        r = _root(n.value.func.value)
-        return n.value.func.attr in MUTATORS and r is not None and r not in local
-    elif isinstance(n, (ast.For, ast.While, ast.If, ast.With, ast.Try)):
-        body = getattr(n, 'body', [])
-        return bool(body) and _is_write_stmt(body[0], local)
-    for t in targets:
-        for x in ([t] if not isinstance(t, (ast.Tuple, ast.List)) else t.elts):
-            if isinstance(x, (ast.Attribute, ast.Subscript)):
-                r = _root(x)
-                if r is not None and r not in local:
-                    return True
-    return False
+_rd = {}
+_un = {}
 
 
 def _scan(files):
+    """The places of the traced files where state that OUTLIVES A CALL is written (fixtures/sharedwrites.py: an assignment /
+    deletion / augmented assignment through an attribute or item of an object the function did not create itself -- aliases
+    such as `adapter = session.get_adapter(url)` included --, a mutating method call on such an object, an out= argument;
+    outside __init__), the ones that leave a multi-field update half done, and the places where what they write is READ."""
     import ast
     import os
-    import katdal
-    root = os.path.dirname(os.path.dirname(katdal.__file__))
+    from fixtures import sharedwrites as sw
+    from vh.items.c20 import ALLOWED, INVENTORY_FILES
+    root = sw.repo_root()
     for rel in files:
         if rel in _wl:
             continue
-        writes, half = set(), set()
         base = os.path.basename(rel)
+        sites = [st for st in sw.sites_of(rel) if not st.construction and st.kind in ('set', 'aug', 'del', 'call', 'out', 'global')]
+        writes = {(base, st.line) for st in sites}
+        _un[rel] = {(base, st.line) for st in sites if st.ident not in ALLOWED} if rel in INVENTORY_FILES else set()
+        wlines = {ln for _, ln in writes}
+        half = set()
         tree = ast.parse(open(os.path.join(root, rel)).read())
-        for fn in ast.walk(tree):
-            if not isinstance(fn, (ast.FunctionDef, ast.AsyncFunctionDef)) or fn.name == '__init__':
-                continue
-            local = _locals_of(fn)
-            for n in ast.walk(fn):
-                if isinstance(n, ast.stmt) and not isinstance(n, (ast.For, ast.While, ast.If, ast.With, ast.Try)) \
-                        and _is_write_stmt(n, local):
-                    writes.add((base, n.lineno))
-                for field in ('body', 'orelse', 'finalbody'):
-                    block = getattr(n, field, None)
-                    if not isinstance(block, list):
-                        continue
-                    for x, y in zip(block, block[1:]):
-                        if isinstance(x, ast.stmt) and not isinstance(x, (ast.For, ast.While, ast.If, ast.With, ast.Try)) \
-                                and _is_write_stmt(x, local) and _is_write_stmt(y, local):
-                            half.add((base, x.lineno))
-                    # a loop whose body ends with a write: every iteration is a step of a multi-step update
-                    if isinstance(n, (ast.For, ast.While)) and field == 'body' and block and _is_write_stmt(block[-1], local):
-                        half.add((base, block[-1].lineno))
+
+        def site_line(x):
+            if isinstance(x, (ast.For, ast.While, ast.If, ast.With, ast.Try, ast.FunctionDef, ast.AsyncFunctionDef, ast.ClassDef)):
+                return None
+            ls = [ln for ln in range(x.lineno, (x.end_lineno or x.lineno) + 1) if ln in wlines]
+            return ls[-1] if ls else None
+
+        def first_is_write(y):
+            if isinstance(y, (ast.For, ast.While, ast.If, ast.With, ast.Try)):
+                body = getattr(y, 'body', [])
+                return bool(body) and first_is_write(body[0])
+            return site_line(y) is not None
+        for n in ast.walk(tree):
+            for field in ('body', 'orelse', 'finalbody'):
+                block = getattr(n, field, None)
+                if not isinstance(block, list) or not block or not isinstance(block[0], ast.stmt):
+                    continue
+                for x, y in zip(block, block[1:]):
+                    if site_line(x) is not None and first_is_write(y):
+                        half.add((base, site_line(x)))
+                # a loop whose body ends with a write: every iteration is a step of a multi-step update
+                if isinstance(n, (ast.For, ast.While)) and field == 'body' and site_line(block[-1]) is not None:
+                    half.add((base, site_line(block[-1])))
+        attrs = {st.attr for st in sites if st.attr and st.attr not in ('self',)}
         _wl[rel], _adj[rel] = writes, half
+        _rd[rel] = sw.read_lines_of(rel, attrs) - writes
 
 
 def write_lines(files):
@@ -427,45 +409,119 @@ def half_done_lines(files):
     return set().union(*[_adj[f] for f in files])
 
 
-def write_point_schedules(ctx, site, make, files, cap):
-    """Single-pre-emption schedules placed at the shared-state writes: for every thread A and every dynamic occurrence
-    of a writing line in A's solo run, suspend A just before / just after that line, let the other two threads run to
-    completion (or until they block on A's lock), then resume A.  All of them when there are at most `cap`, else a
-    seeded sample."""
+def read_lines(files):
+    """(basename, line) of the statements that READ an attribute some write site of the traced files writes: between such
+    a read (a check) and what the thread does next (the act) the state can change under its feet."""
+    _scan(files)
+    return set().union(*[_rd[f] for f in files])
+
+
+def unmodelled_lines(files):
+    """write sites that are NOT on the translator's list of modelled sites (a broken obligation): searched first"""
+    _scan(files)
+    return set().union(*[_un[f] for f in files])
+
+
+def stratified(rng, items, cap):
+    """at most `cap` of the (key, value) items, spread evenly over the keys (the static source lines), seeded"""
+    groups = {}
+    for k, v in items:
+        groups.setdefault(k, []).append(v)
+    for g in groups.values():
+        rng.shuffle(g)
+    out = []
+    keys = sorted(groups)
+    rng.shuffle(keys)
+    while len(out) < cap and any(groups.values()):
+        for k in keys:
+            if groups[k] and len(out) < cap:
+                out.append(groups[k].pop())
+    return out
+
+
+def write_point_schedules(ctx, site, make, files, cap, nthreads=3, read_cap=None):
+    """Single-pre-emption schedules placed at the shared state: for every thread A and every dynamic occurrence, in A's
+    solo run, of a line that writes to state that outlives the call -- or that reads what such a line writes --, suspend A
+    just before / just after that line, let the other threads run to completion (or until they block on A's lock), then
+    resume A.  Windows at write sites no model covers (a broken obligation) and windows that leave a multi-field update
+    half done go first; the others are capped, spread evenly over the distinct source lines."""
     wl = write_lines(files)
     hd = half_done_lines(files)
-    scheds, first = [], []
-    for a in range(3):
-        others = [t for t in range(3) if t != a]
-        s = Sched(files, [['run', a], ['run', others[0]], ['run', others[1]]], max_trace=20000)
+    rl = read_lines(files)
+    un = unmodelled_lines(files)
+    scheds, first, reads, urgent = [], [], [], []
+    for a in range(nthreads):
+        others = [t for t in range(nthreads) if t != a]
+        s = Sched(files, [['run', a]] + [['run', o] for o in others], max_trace=20000)
         funcs, _ = make(s)
         _, trace = s.run(funcs)
         steps = [tuple(w) for (t, w) in trace if t == a]
         for i, w in enumerate(steps):
-            if w in wl:
+            if w in wl or w in rl:
                 for k in (i + 1, i + 2):
                     o = list(others)
-                    if ctx.rng.random() < 0.5:
-                        o.reverse()
-                    sch = [a] * k + [['run', o[0]], ['run', o[1]]]
-                    # suspended right after the first of two consecutive writes: a half-done update -- these go first
-                    (first if (k == i + 2 and w in hd) else scheds).append(sch)
-    ctx.extra.setdefault('write_points', {})[site] = [len(first), len(scheds)]
-    if len(first) > 4 * cap:
-        first = ctx.rng.sample(first, 4 * cap)
-    if len(scheds) > cap:
-        scheds = ctx.rng.sample(scheds, cap)
-    return first + scheds
+                    ctx.rng.shuffle(o)
+                    sch = [a] * k + [['run', t] for t in o]
+                    key = (w, k - i)
+                    if w in un:
+                        urgent.append((key, sch))
+                    elif w in rl and w not in wl:
+                        reads.append((key, sch))
+                    elif k == i + 2 and w in hd:
+                        # suspended right after the first of two consecutive writes: a half-done update -- these go first
+                        first.append((key, sch))
+                    else:
+                        scheds.append((key, sch))
+    ctx.extra.setdefault('write_points', {})[site] = [len(urgent), len(first), len(scheds), len(reads)]
+    if un and urgent:
+        # the neighbourhood of an unmodelled site: the reads of what it writes are part of the same search
+        urgent += reads
+        reads = []
+    urgent = stratified(ctx.rng, urgent, min(6 * cap, 80))
+    first = stratified(ctx.rng, first, 4 * cap)
+    scheds = stratified(ctx.rng, scheds, cap)
+    reads = stratified(ctx.rng, reads, max(2, cap // 15) if read_cap is None else read_cap)
+    return urgent + first + scheds + reads
 
 
-def run_site(ctx, site, make, files, n=None, length=60, cap=None):
+def two_level_schedules(ctx, site, make, files, cap):
+    """Schedules with TWO pre-emptions among three threads: A is suspended next to one of its shared-state writes, then B
+    next to one of its own (both keep what they hold -- a borrowed session, a half-done update), the third thread runs to
+    completion, then B, then A.  Needed when the damage takes three parties (A's and C's sessions share a part while B
+    keeps the pool from handing A's partner out earlier).  Spread evenly over the pairs of source lines, seeded."""
+    wl = write_lines(files)
+    pts = {}
+    for a in range(3):
+        others = [t for t in range(3) if t != a]
+        s = Sched(files, [['run', a]] + [['run', o] for o in others], max_trace=20000)
+        funcs, _ = make(s)
+        _, trace = s.run(funcs)
+        steps = [tuple(w) for (t, w) in trace if t == a]
+        pts[a] = [(w, i + 2) for i, w in enumerate(steps) if w in wl]
+    items = []
+    for a in range(3):
+        for b in range(3):
+            if b == a:
+                continue
+            c = 3 - a - b
+            for wa, ka in pts[a]:
+                for wb, kb in pts[b]:
+                    items.append(((wa, wb), [a] * ka + [b] * kb + [['run', c], ['run', b], ['run', a]]))
+    ctx.extra.setdefault('two_level_points', {})[site] = len(items)
+    return stratified(ctx.rng, items, cap)
+
+
+def run_site(ctx, site, make, files, n=None, length=60, cap=None, nthreads=3, read_cap=None, points_first=False):
     n = ctx.scale(30, 500) if n is None else n
-    for schedule in gen_schedules(ctx, 3, n, length, two_switch=(cap is None)):
+    two = cap is None
+    points = write_point_schedules(ctx, site, make, files, ctx.scale(60, 2000) if cap is None else cap, nthreads, read_cap)
+    rand = list(gen_schedules(ctx, nthreads, n, length, two_switch=two))
+    before = len(ctx.disagreements)
+    for schedule in (points + rand if (points_first or unmodelled_lines(files)) else rand + points):
         if run_one(ctx, site, make, files, schedule):
             return          # a hung run leaves stuck threads behind and has been reported: leave this site
-    for schedule in write_point_schedules(ctx, site, make, files, ctx.scale(60, 2000) if cap is None else cap):
-        if run_one(ctx, site, make, files, schedule):
-            return
+        if ctx.searching and len(ctx.disagreements) - before >= 4:
+            return          # (failing-input search: this site has delivered; the time goes to the other sites)
 
 
 def site_dask(variant):
@@ -1845,6 +1901,374 @@ def ext_site_table(ctx):
     t['v4_props'] = (site_v4_props(ctx.seed), V4P_FILES)
     return t
 
+
+# ================================================================================================ strengthening round
+# State that outlives a call at the sites reached by a multi-threaded load: the block functions of the applycal
+# corrections over the ONE CorrectionParams object of the graph; the retry budget slot (adapter.max_retries) of the pooled
+# S3 sessions.  Models: coq/Model/PerCall.v (wire_211 .. 213).
+
+def blocks_cross_check(ctx):
+    """extracted block machine (per-call state only: NO lock) on random blocks / schedules: every finished block is the
+    single-thread block (theorem); the same with the unlocked memo: wrong blocks exist (counted); memo under a lock: safe"""
+    if not ctx.model_ok or ctx.searching:
+        return
+    rng = ctx.rng
+    cases = []
+    for _ in range(ctx.scale(100, 1500)):
+        nt = rng.randint(1, 4)
+        blocks = [[sorted(rng.sample(range(8), rng.randint(0, 4))), rng.randrange(2)] for _ in range(nt)]
+        sched = [rng.randrange(nt) for _ in range(rng.choice((0, 5, 30, 80, 160)))]
+        for memo in (0, 1, 2):
+            cases.append((blocks, sched, memo))
+    outs = ctx.model([[213, [b, sc, m]] for b, sc, m in cases])
+    wrong = 0
+    for (blocks, sched, memo), o in zip(cases, outs):
+        if o == [-999]:
+            continue
+        states, spec = o
+        bad = any(st[0] == 4 or (st[0] == 2 and st[1] != sp) or (st[0] == 1 and st[1] != sp[:len(st[1])])
+                  for st, sp in zip(states, spec))
+        if memo == 1:
+            wrong += bad
+        elif bad:
+            ctx.disagree('what=model_blocks;symptom=%s' % ('percall' if memo == 0 else 'locked_memo'),
+                         dict(kind='model_blocks', blocks=blocks, schedule=sched, memo=memo), None, o,
+                         'extracted block machine contradicts the theorem', kind='tie')
+        ctx.note_case(('model_blocks', str(blocks), tuple(sched), memo), nontrivial=len(sched) > 4)
+    ctx.extra['model_unlocked_memo_wrong_blocks'] = wrong
+    ctx.count('model_blocks', len(cases))
+
+
+def budget_cross_check(ctx):
+    """extracted retry-budget machine: random interleavings of request programs as the TRANSLATED flags make them
+    (wire_212) and arbitrary event soups, adapters as translated (wire_211 with []): no attempt with a foreign budget, none
+    before its own budget is stored (programs); the same events with ONE adapter for all sessions: foreign budgets exist"""
+    if not ctx.model_ok or ctx.searching:
+        return
+    rng = ctx.rng
+    shared_foreign = 0
+    for _ in range(ctx.scale(80, 1500)):
+        nt = rng.randint(1, 4)
+        reqs = []
+        for t in range(nt):
+            for _ in range(rng.randint(1, 3)):
+                outs = [0] * rng.choice((0, 0, 1, 2)) + [rng.choice((1, 1, 2))]
+                if rng.random() < 0.1:
+                    outs = [0] * rng.randint(0, 3)
+                reqs.append((t, 10 * (len(reqs) + 1), outs))           # budgets that tell the requests apart
+        evs = ctx.model([[212, [t, v, outs]] for t, v, outs in reqs])
+        if [-999] in evs:
+            continue
+        per = {}
+        for (t, _, _), e in zip(reqs, evs):
+            per.setdefault(t, []).extend(e)
+        merged, pos = [], {t: 0 for t in per}
+        while any(pos[t] < len(per[t]) for t in per):
+            t = rng.choice([t for t in per if pos[t] < len(per[t])])
+            merged.append(per[t][pos[t]])
+            pos[t] += 1
+        soup = [[rng.randrange(6), rng.randrange(nt), rng.randrange(4)] for _ in range(rng.randint(0, 30))]
+        o1, o2, o3 = ctx.model([[211, [[], merged]], [211, [[], soup]], [211, [[0] * 12, merged]]])
+        case = dict(kind='model_budget', requests=[[t, v, o] for t, v, o in reqs], events=merged)
+        if o1 != [-999] and (o1[0] or o1[1] or o1[2] or o1[3] or o1[4]):
+            ctx.disagree('what=model_budget;symptom=conforming', case, None, o1[:5],
+                         'retry-budget machine under an interleaving of request programs contradicts the theorem', kind='tie')
+        if o2 != [-999] and (o2[0] or o2[2] or o2[4]):
+            ctx.disagree('what=model_budget;symptom=soup', dict(kind='model_budget', events=soup), None, o2[:5],
+                         'retry-budget machine under an arbitrary event list contradicts the theorem', kind='tie')
+        shared_foreign += bool(o3 != [-999] and o3[0])
+        ctx.note_case(('model_budget', str(reqs), str(merged)), nontrivial=nt > 1)
+        ctx.count('model_budget')
+    ctx.extra['model_shared_adapter_foreign_budgets'] = shared_foreign
+
+
+APPLYCAL_FILES = ['katdal/applycal.py', 'katdal/vis_flags_weights.py', 'katdal/chunkstore.py', 'katdal/chunkstore_npy.py']
+_ac = {}
+
+
+def applycal_fixture(seed):
+    """a v4 data set with a calibration stream whose K and B solutions change DURING the observation (three and two
+    solution intervals over eight dumps, boundaries inside and between time chunks), opened with applycal=K,B: the
+    corrections are categorical, so consecutive dumps of a solution interval are handed the very same solution arrays"""
+    from fixtures import c13cal
+    import math
+    r = random.Random(seed)
+    F, ants = 8, ['m000', 'm001']
+
+    def cval():
+        m, ph = r.uniform(0.5, 2.0), r.uniform(-math.pi, math.pi)
+        return [m * math.cos(ph), m * math.sin(ph)]
+    products = {'B': [[dd, [[[cval() for _ in ants] for _ in range(2)] for _ in range(F)]] for dd in (-1, 3)],
+                'K': [[dd, [[r.uniform(-2e-9, 2e-9) for _ in ants] for _ in range(2)]] for dd in (-1, 2, 5)]}
+    chan_w = 1048576.0
+    cal = dict(antlist=ants, pol_ordering=['v', 'h'], center_freq=1284e6, bandwidth=F * chan_w, n_chans=F, products=products)
+    return v4.build_v4(T=8, F=F, seed=seed, bandwidth=F * chan_w, center_freq=1284e6, telstate_hook=c13cal.cal_hook(cal),
+                       archived_override=['sdp_l0', 'cal'], open_kwargs=dict(applycal=['l1.K', 'l1.B']),
+                       need_weights_power_scale=True,
+                       chunks={'correlator_data': (2, 4, 12), 'flags': (2, 4, 12), 'weights': (2, 4, 12)})
+
+
+# what each worker computes: blocks of the calibrated arrays (time chunk, frequency chunk), by chunk-aligned indexing
+APPLYCAL_PLANS = {
+    # same channels, neighbouring time chunks (a solution interval spans the chunk boundary) + another frequency chunk
+    'applycal_vis': [[('vis', 2, 0)], [('vis', 3, 0)], [('vis', 3, 1), ('vis', 0, 1)]],
+    # vis / weights / flags of different blocks: the three graphs share ONE corrections array
+    'applycal_mixed': [[('weights', 0, 0), ('vis', 1, 0)], [('flags', 0, 1), ('vis', 2, 1)], [('vis', 3, 0), ('weights', 3, 1)]],
+}
+
+
+def applycal_env(seed):
+    if 'x' not in _ac:
+        x = guarded(lambda: applycal_fixture(seed), 150)
+        _ac['x'] = x
+        d = x.d
+        with dask.config.set(scheduler='synchronous'):
+            # (first accesses of the indexers are not what these sites are about: done here, by one thread)
+            _ac['arr'] = guarded(lambda: {'vis': d.vis.dataset, 'weights': d.weights.dataset, 'flags': d.flags.dataset})
+            _ac['exp'] = {}
+            for plan in APPLYCAL_PLANS.values():
+                for th in plan:
+                    for key in th:
+                        if key not in _ac['exp']:
+                            _ac['exp'][key] = guarded(lambda: applycal_block(_ac['arr'], key))
+    return _ac['x'], _ac['arr'], _ac['exp']
+
+
+def applycal_block(arrs, key):
+    nm, ti, fi = key
+    return np.asarray(arrs[nm].blocks[ti, fi, 0].compute(scheduler='synchronous'))
+
+
+def site_applycal(seed, plan_name):
+    """Dask workers computing DIFFERENT blocks of the calibrated visibilities / weights / flags of a v4 data set opened with
+    applycal (each thread = one worker running its tasks with the synchronous scheduler): the whole block path -- chunk
+    read, corrections block (_correction_block -> calc_correction_per_corrprod over the CorrectionParams object that is
+    baked into the graph), apply_*_correction, weight scaling -- at line granularity.  Every block must be bit-identical
+    to the block a single thread computes."""
+    plan = APPLYCAL_PLANS[plan_name]
+
+    def make(s):
+        x, arrs, exp = applycal_env(seed)
+
+        def worker(t):
+            def f():
+                return [applycal_block(arrs, key) for key in plan[t]]
+            return f
+
+        def check(results):
+            for t in range(3):
+                for key, got in zip(plan[t], results[t][1]):
+                    e = exp[key]
+                    if got.shape != e.shape or got.dtype != e.dtype or not np.array_equal(got, e, equal_nan=(e.dtype.kind in 'fc')):
+                        n = int(np.sum(~((got == e) | ((got != got) & (e != e))))) if got.shape == e.shape else -1
+                        return 'wrong_value; thread %d block %s differs from the single-threaded block in %d places' % (t, key, n)
+            return None
+        return [worker(0), worker(1), worker(2)], check
+    return make
+
+
+def applycal_cleanup():
+    if 'x' in _ac:
+        v4.cleanup(_ac.pop('x'))
+        _ac.clear()
+
+
+_s3b = {}
+S3B_FILES = ['katdal/chunkstore_s3.py', 'katdal/chunkstore.py']
+
+
+def s3b_env():
+    if 's' not in _s3b:
+        import logging
+        from fixtures.s3mini import MiniS3
+        from katdal.chunkstore import npy_header_and_body
+        logging.getLogger('urllib3').setLevel(logging.CRITICAL)
+        objects, chunks = {}, {}
+        for k in range(4):
+            a = (np.arange(12, dtype=np.int32).reshape(3, 4) + 100 * k + 1)
+            hdr, body = npy_header_and_body(a)
+            objects['/bkt/arr/%05d_00000.npy' % (3 * k)] = hdr + body.tobytes()
+            chunks[k] = a
+        # chunk 0: the body of the first response is cut (katdal's own read retry: the used-up Retry object is stored for the
+        # second attempt); chunks 1 and 2: the first request is hung up on (urllib3 retries with the budget it was GIVEN)
+        _s3b['s'] = MiniS3(objects, trunc={'/bkt/arr/00000_00000.npy': 1},
+                           hangup={'/bkt/arr/00003_00000.npy': 1, '/bkt/arr/00006_00000.npy': 1})
+        _s3b['chunks'] = chunks
+    return _s3b['s'], _s3b['chunks']
+
+
+def site_s3b(ctx):
+    """Concurrent S3 requests with PER-REQUEST retry budgets: every request may retry once (Retry(connect=1, read=1,
+    status=1)), one request overrides its budget (retries=0).  Thread 0 reads a chunk whose first response is truncated
+    (its budget is used up and the used-up Retry object stored for the second attempt), threads 1 and 2 read chunks whose
+    first request is hung up on (urllib3 retries with the budget the adapter holds at that moment), thread 2 then sends a
+    request with retries=0.  The data path (get_chunk_or_default) must hand every thread the chunk a single thread gets
+    -- a request that is denied the retry it is entitled to quietly becomes default values.  The events borrow / store
+    budget / send / sleep / give back of the run are replayed in the extracted retry-budget machine (wire_211) with the
+    adapter-per-session map OBSERVED on the real store and with the map as TRANSLATED."""
+    from katdal.chunkstore_s3 import S3ChunkStore
+    from urllib3.util.retry import Retry
+    import requests
+
+    def build(s, srv):
+        store = S3ChunkStore(srv.url, timeout=(2, 5), retries=Retry(connect=1, read=1, status=1, backoff_factor=0.0005))
+        pool = store._session_pool
+        log = dict(events=[], made=[], adapters=[], budgets=[], foreign=[], last={}, borrowed={})
+        if s is not None:
+            pool._lock = ilock_like(s, pool._lock)
+        cur = (lambda: s.current) if s is not None else (lambda: 0)
+        events = log['events']
+
+        class LoggedList(list):
+            def pop(self, *a):
+                events.append([0, cur(), 0])
+                return list.pop(self, *a)
+
+            def append(self, x):
+                events.append([3, cur(), 0])
+                list.append(self, x)
+
+            def insert(self, i, x):
+                events.append([3, cur(), 0])
+                list.insert(self, i, x)
+        pool._pool = LoggedList(pool._pool)
+
+        def budget_id(obj):
+            for i, b in enumerate(log['budgets']):
+                if b is obj:
+                    return i
+            log['budgets'].append(obj)
+            return len(log['budgets']) - 1
+
+        def instrument(adapter):
+            if getattr(adapter, '_c20', False):
+                return
+            base = type(adapter)
+
+            class Logged(base):
+                @property
+                def max_retries(self):
+                    return self.__dict__['_mr']
+
+                @max_retries.setter
+                def max_retries(self, v):
+                    self.__dict__['_mr'] = v
+                    log['last'][cur()] = v
+                    events.append([5, cur(), budget_id(v)])
+
+                def send(self, *a, **k):
+                    me = cur()
+                    events.append([1, me, 0])
+                    if me in log['last'] and self.__dict__['_mr'] is not log['last'][me]:
+                        log['foreign'].append(me)
+                    return base.send(self, *a, **k)
+            mr = adapter.__dict__.pop('max_retries')
+            adapter.__dict__['_mr'] = mr
+            adapter.__dict__['_c20'] = True
+            adapter.__class__ = Logged
+        inner_factory, inner_get, inner_put = pool._factory, pool.get, pool.put
+
+        def factory():
+            session = inner_factory()
+            events.append([0, cur(), 0])
+            log['made'].append(session)
+            ad = session.get_adapter(srv.url + '/bkt')
+            instrument(ad)
+            ids = [id(a) for a in log['adapters']]
+            if id(ad) not in ids:
+                log['adapters'].append(ad)
+            log.setdefault('adapter_of', []).append([id(a) for a in log['adapters']].index(id(ad)))
+            return session
+
+        def get():
+            item = inner_get()
+            log['borrowed'][cur()] = item
+            log['last'].pop(cur(), None)
+            return item
+
+        def put(item):
+            if log['borrowed'].get(cur()) is item:
+                log['borrowed'][cur()] = None
+            inner_put(item)
+        pool._factory, pool.get, pool.put = factory, get, put
+        inner_request = store.request
+
+        def request(*a, **k):
+            try:
+                return inner_request(*a, **k)
+            finally:
+                if log['borrowed'].get(cur()) is not None:      # the request left its `with` block by an exception
+                    events.append([4, cur(), 0])
+                    log['borrowed'][cur()] = None
+        store.request = request
+
+        def chunk(k):
+            return store.get_chunk_or_default('bkt/arr', (slice(3 * k, 3 * k + 3), slice(0, 4)), np.int32, 0).tolist()
+
+        def override():
+            url = store.make_url('bkt/arr/%05d_00000.npy' % 9)
+            return store.request('GET', url, process=lambda r: len(r.content), retries=0)
+        # (each thread ENDS with the request that leaves a used-up / overridden budget behind, or that needs its own)
+        fs = [lambda: [chunk(3), chunk(0)], lambda: [chunk(3), chunk(1)], lambda: [chunk(2), override()]]
+        return fs, store, log
+
+    def make(s):
+        srv, chunks = s3b_env()
+        if 'exp' not in _s3b:
+            srv.reset_faults()
+            fs, _, _ = build(None, srv)
+            _s3b['exp'] = [f() for f in fs]          # what ONE thread gets, request by request
+        exp = _s3b['exp']
+        srv.reset_faults()
+        fs, store, log = build(s, srv)
+
+        def check(results):
+            for t in range(3):
+                if results[t][1] != exp[t]:
+                    got = results[t][1]
+                    k = [i for i, (a, b) in enumerate(zip(got, exp[t])) if a != b] if isinstance(got, list) else '?'
+                    zeros = isinstance(got, list) and any(isinstance(g, list) and not np.any(g) for g in got)
+                    return 'wrong_value; thread %d request %s%s' % (t, k, ' (default values instead of the chunk)' if zeros else '')
+            if ctx.model_ok and not ctx.searching:
+                evs = log['events']
+                real_map = log.get('adapter_of', [])
+                o_real, o_tr = ctx.model([[211, [real_map, evs]], [211, [[], evs]]])
+                if o_real != [-999] and (bool(o_real[0]) != bool(log['foreign']) or o_real[2] or o_real[3] or o_real[4]):
+                    return 'model_budget_differs; real run: foreign budgets %r, model on the observed adapters: %r' % (
+                        log['foreign'][:3], o_real[:5])
+                if o_tr != [-999] and (bool(log['foreign']) or o_tr[0] or o_tr[1]):
+                    return 'model_budget_differs; attempts of threads %r were sent with the budget of another request ' \
+                           '(adapters per session as observed: %r); the translated model says %r' % (log['foreign'][:3], real_map, o_tr[:2])
+            return None
+        return fs, check
+    return make
+
+
+def s3_sessions_suspect():
+    """do the translator's facts about the pooled sessions (what the factory attaches to them, where the adapter comes
+    from, where request() stores the budget) differ from what Model/PerCall.v assumes, or is there a write site in
+    chunkstore_s3.py that no model covers?  (pure ast, same code as the translator items)"""
+    from fixtures import sharedwrites as sw
+    from vh.items import c20 as items
+    out = []
+    try:
+        items.item_session_parts(sw.repo_root(), out)
+    except Exception:   # noqa
+        return True
+    txt = '\n'.join(out)
+    ok = ('c20_session_shared_parts : list string := ["auth"%string; "url"%string].' in txt
+          and 'c20_adapter_per_session : bool := true' in txt and 'c20_request_sets_budget_first : bool := true' in txt
+          and 'c20_auth_state_writes : list string := [].' in txt)
+    return not ok or bool(unmodelled_lines(['katdal/chunkstore_s3.py']))
+
+
+def strengthen_site_table(ctx):
+    t = {}
+    for k in APPLYCAL_PLANS:
+        t[k] = (site_applycal(ctx.seed, k), APPLYCAL_FILES)
+    t['s3b'] = (site_s3b(ctx), S3B_FILES)
+    return t
+
 # ------------------------------------------------------------------------------------------------ driver
 
 def site_table(ctx):
@@ -1860,6 +2284,7 @@ def site_table(ctx):
     for k in ('same', 'alias', 'virtual', 'virtual2', 'props', 'select', 'mixed'):
         t['sensor_' + k] = (site_sensor(k), ['katdal/sensordata.py'])
     t.update(ext_site_table(ctx))
+    t.update(strengthen_site_table(ctx))
     return t
 
 
@@ -1881,6 +2306,8 @@ def run(ctx):
     props_cross_check(ctx)
     verify_cross_check(ctx)
     request_cross_check(ctx)
+    blocks_cross_check(ctx)
+    budget_cross_check(ctx)
     _timed(ctx, 'models', t0)
     table = site_table(ctx)
     for site, (make, files) in table.items():
@@ -1904,6 +2331,24 @@ def run(ctx):
             run_site(ctx, site, make, files, n=ctx.scale(12, 200), length=300, cap=ctx.scale(30, 600))
         elif site.startswith('concat_'):
             run_site(ctx, site, make, files, n=ctx.scale(10, 200), length=600, cap=ctx.scale(40, 800))
+        elif site.startswith('applycal_'):
+            try:
+                applycal_env(ctx.seed)
+                with dask.config.set(scheduler='synchronous'):
+                    run_site(ctx, site, make, files, n=ctx.scale(8, 120), length=2500, cap=ctx.scale(16, 400),
+                             read_cap=ctx.scale(16, 400))
+            except Hang as e:
+                ctx.disagree('what=single_thread_load;symptom=open_hangs', dict(site=site, schedule=[]), str(e), None,
+                             'opening a v4 data set with applycal and computing one block from ONE thread does not return')
+        elif site == 's3b':
+            run_site(ctx, site, make, files, n=ctx.scale(4, 80), length=600, cap=ctx.scale(48, 400), read_cap=ctx.scale(4, 100),
+                     points_first=True)
+            if ctx.tier == 'thorough' or s3_sessions_suspect():
+                # what the sessions of the pool have in common is not what was modelled (or the thorough tier): also the
+                # schedules in which THREE requests are in flight
+                for schedule in two_level_schedules(ctx, site, make, files, ctx.scale(100, 300)):
+                    if run_one(ctx, site, make, files, schedule):
+                        break
         else:
             run_site(ctx, site, make, files)
         _timed(ctx, site, t1)
@@ -1920,6 +2365,10 @@ def run(ctx):
         _s3.pop('s').close()
     if 's' in _s3x:
         _s3x.pop('s').close()
+    if 's' in _s3b:
+        _s3b.pop('s').close()
+        _s3b.clear()
+    applycal_cleanup()
 
 
 def replay_load(ctx, case, kind):
@@ -1969,9 +2418,10 @@ def replay_case(ctx, case):
             memo_eval(ctx, case['graph'], case['virt'], case['wants'], case['schedule'], case['locked'], o)
         ctx.note_case(('model_memo', 'replay'))
         return
-    if kind in ('model_props', 'model_verify', 'model_request'):
+    if kind in ('model_props', 'model_verify', 'model_request', 'model_blocks', 'model_budget'):
         # (model-only cases: the cross-check of the same seed reproduces them)
-        {'model_props': props_cross_check, 'model_verify': verify_cross_check, 'model_request': request_cross_check}[kind](ctx)
+        {'model_props': props_cross_check, 'model_verify': verify_cross_check, 'model_request': request_cross_check,
+         'model_blocks': blocks_cross_check, 'model_budget': budget_cross_check}[kind](ctx)
         return
     if kind in ('store_writes', 'load'):
         try:
@@ -2000,11 +2450,24 @@ def replay_case(ctx, case):
                              'reading the sensor-backed properties of a v4 data set from ONE thread does not return')
                 return
             run_one(ctx, site, make, files, case.get('schedule', []), replaying=True)
+        elif site.startswith('applycal_'):
+            try:
+                applycal_env(ctx.seed)
+            except Hang as e:
+                ctx.disagree('what=single_thread_load;symptom=open_hangs', case, str(e), None,
+                             'opening a v4 data set with applycal and computing one block from ONE thread does not return')
+                return
+            with dask.config.set(scheduler='synchronous'):
+                run_one(ctx, site, make, files, case.get('schedule', []), replaying=True)
         else:
             run_one(ctx, site, make, files, case.get('schedule', []), replaying=True)
     finally:
         load_lines_cleanup()
         v4p_cleanup()
+        applycal_cleanup()
+        if 's' in _s3b:
+            _s3b.pop('s').close()
+            _s3b.clear()
         if 's' in _s3:
             _s3.pop('s').close()
         if 's' in _s3x:
